@@ -184,6 +184,11 @@ func (info *Info) Encode() []byte {
 		total += len(lookupList)
 	}
 
+	if featureListOffset > 0xFFFF || lookupListOffset > 0xFFFF {
+		// the list offsets are stored in 16 bits
+		panic("gtab: table too large")
+	}
+
 	buf := make([]byte, total)
 	copy(buf, []byte{
 		0, 1, // major version
